@@ -132,6 +132,7 @@ def make(interp):
         "abs": B(A.elementwise(A.aabs)), "maximum": B(lambda a, b: A.Max(a, b)), "minimum": B(lambda a, b: A.Min(a, b)),
         "where": B(A.where), "dot": B(A.dot), "outer": B(A.outer), "take": B(A.take), "diff": B(A.diff), "clip": B(A.clip),
         "int32": "int32", "float32": "float32", "float64": "float64", "ndarray": "ndarray", "inf": float("inf"),
+        "int64": "int64", "int16": "int16", "int8": "int8", "uint8": "uint8", "uint16": "uint16", "uint32": "uint32", "uint64": "uint64", "float16": "float16", "bool_": "bool_",
     }
     def ravel_multi_index(multi, dims, mode="raise"):
         multi = [m for m in multi]; dims = interp.iterate(dims) if not isinstance(dims, (list, tuple)) else list(dims)
